@@ -8,6 +8,7 @@ import (
 	"runtime"
 	"runtime/pprof"
 	"sync"
+	"sync/atomic"
 	"testing"
 	"time"
 
@@ -161,4 +162,73 @@ func TestProbePoison2(t *testing.T) {
 	g.gate = nil
 	rs, _, err := incremental.Run(context.Background(), e, incremental.Query[int](pq{g, 0}))
 	fmt.Printf("run2 %.200v err=%v keys=%v log=%v\n", rs, err, e.Keys(), g.log)
+}
+
+func TestProbeEvict2(t *testing.T) {
+	g := &pgraph{deps: map[int][]int{1: {0}}}
+	e := incremental.New(incremental.WithParallelism(4))
+	incremental.Run(context.Background(), e, incremental.Query[int](pq{g, 1}))
+	fmt.Println("keys after Run(1):", e.Keys())
+	var mu sync.Mutex
+	arrived := 0
+	both := make(chan struct{})
+	verifhook.Set(func(site, _ string) {
+		if site != "incr.evict.beforeLock" {
+			return
+		}
+		mu.Lock()
+		arrived++
+		n := arrived
+		if n == 2 {
+			close(both)
+		}
+		mu.Unlock()
+		<-both
+		if n == 2 {
+			time.Sleep(100 * time.Millisecond) // the second Evict takes the lock last
+		}
+	})
+	defer verifhook.Set(nil)
+	var wg sync.WaitGroup
+	for i := 0; i < 2; i++ {
+		wg.Add(1)
+		go func() { defer wg.Done(); e.Evict(pk{0}) }()
+	}
+	<-both
+	time.Sleep(30 * time.Millisecond) // first Evict done
+	incremental.Run(context.Background(), e, incremental.Query[int](pq{g, 1}))
+	fmt.Println("keys after Evict(0) + Run(1):", e.Keys())
+	wg.Wait()
+	fmt.Println("keys after second Evict(0):", e.Keys(), " log:", g.log)
+	rs, _, _ := incremental.Run(context.Background(), e, incremental.Query[int](pq{g, 1}))
+	fmt.Println("Run(1) again: changed =", rs[0].Changed, "keys:", e.Keys(), " log:", g.log)
+}
+
+func TestProbeZeroValue(t *testing.T) {
+	n := 0
+	var ctr atomic.Uint64
+	verifhook.Set(func(site, _ string) {
+		if site == "incr.run.follower" || site == "incr.run.beforeCAS" {
+			time.Sleep(time.Duration(ctr.Add(1)*7919%400) * time.Microsecond)
+		}
+	})
+	defer verifhook.Set(nil)
+	for i := 0; i < 2000 && n < 3; i++ {
+		g := &pgraph{deps: map[int][]int{6: {0}}, panic: map[int]bool{0: true}}
+		e := incremental.New(incremental.WithParallelism(4))
+		ctx, cancel := context.WithTimeout(context.Background(), 20*time.Millisecond)
+		var wg sync.WaitGroup
+		wg.Add(1)
+		go func() {
+			defer wg.Done()
+			incremental.Run(ctx, e, incremental.Query[int](pq{g, 0}))
+		}()
+		rs, _, err := incremental.Run(ctx, e, incremental.Query[int](pq{g, 6}))
+		wg.Wait()
+		cancel()
+		if err == nil && rs[0].Fatal == nil {
+			n++
+			fmt.Printf("iteration %d: Run(6) returned err=nil Fatal=nil value=%d although query 0 panics (its value is (6+1)*31+v0 => v0=%d)\n", i, rs[0].Value, rs[0].Value-7*31)
+		}
+	}
 }
